@@ -85,14 +85,22 @@ def main():
         det = {}
         checks = json.load(open(os.path.join(VERIF, "MANIFEST.json")))["checks"]
         env = dict(os.environ, VERIF_REPO=wt, PMLINT_EVIDENCE_DIR=os.path.join(wt, "_out", "evidence"))
-        for c in checks:
-            p = c["property_id"]
-            for tier in ("quick", "thorough"):
-                r, o = sh([PY, "-m", "pmlint", "check", p, "--tier", tier], cwd=VERIF, env=env)
-                if r != 0:
-                    rules = sorted({ln.split()[1] for ln in o.split("\n") if ln.startswith("pymoto/") and len(ln.split()) > 1})
-                    det.setdefault(p, {})[tier] = {"exit": r, "rules": rules,
-                                                  "lines": [ln[:300] for ln in o.split("\n") if ln.startswith("pymoto/") or ln.startswith("ANALYSIS")][:4]}
+        # one pass over every rule (`pmlint sweep`): per property what `check <prop> --tier thorough` would report
+        r, o = sh([PY, "-m", "pmlint", "sweep"], cwd=VERIF, env=env)
+        cur = None
+        for ln in o.split("\n"):
+            if ln.startswith("PROP "):
+                _, cur, ex = ln.split()
+                if ex != "exit=0":
+                    det[cur] = {"thorough": {"exit": int(ex.split("=")[1]), "rules": [], "lines": []}}
+            elif ln.startswith("  ") and cur in det:
+                t = ln.strip()
+                if t.startswith("pymoto/") and len(t.split()) > 1 and t.split()[1] not in det[cur]["thorough"]["rules"]:
+                    det[cur]["thorough"]["rules"].append(t.split()[1])
+                if len(det[cur]["thorough"]["lines"]) < 4:
+                    det[cur]["thorough"]["lines"].append(t[:300])
+        if "PROP C20" not in o:
+            det["ENGINE"] = {"thorough": {"exit": r, "rules": [], "lines": o.strip().split("\n")[-3:]}}
         meta["detected_by"] = det
         meta["detected_for_property"] = prop in det
         print(sid, "CONFIRMED" if confirmed else f"NOT-CONFIRMED(clean={rc0},patched={rc1},missing={missing})",
